@@ -33,6 +33,9 @@ func (t *Type) rankString() string {
 			} else {
 				b.WriteString("l")
 			}
+			if t.Meth != "" && t.Meth != "vv" {
+				b.WriteString("m" + t.Meth)
+			}
 			for _, f := range t.Fields {
 				switch {
 				case f.Emb:
@@ -155,6 +158,11 @@ func replacements(root, s *Type) []*Type {
 		if s.Pkg == "ext" {
 			c := s.Clone()
 			c.Pkg = "local"
+			out = append(out, c)
+		}
+		if s.Meth != "" && s.Meth != "vv" { // canonical method kind: value receiver, value argument
+			c := s.Clone()
+			c.Meth = "vv"
 			out = append(out, c)
 		}
 		for i, f := range s.Fields {
